@@ -627,6 +627,27 @@ Definition line_sid_api m_tan m_cos m_log has_nil s e (z : Z) : result (list str
   | Err => Err
   end.
 
+(* ---- histories of calls: the model has no state, so the answer to a call is the same after any history ---- *)
+Record lstep := { st_sid : bool; st_nil : bool; st_s : point; st_e : point; st_h : Z; st_v : Z }.
+Definition step_answer (m_tan m_cos m_log : float -> float) (st : lstep) : result (list string) :=
+  if st_sid st then line_sid_api m_tan m_cos m_log (st_nil st) (st_s st) (st_e st) (st_h st)
+  else line_api m_tan m_cos m_log (st_nil st) (st_s st) (st_e st) (st_h st) (st_v st).
+(* answers of the model to a sequence of calls, in order *)
+Definition history_answers (m_tan m_cos m_log : float -> float) (l : list lstep) : list (result (list string)) :=
+  map (step_answer m_tan m_cos m_log) l.
+Theorem history_answers_independent m_tan m_cos m_log (before before' after after' : list lstep) (x : lstep) :
+  nth_error (history_answers m_tan m_cos m_log (before ++ x :: after)) (List.length before) =
+  Some (step_answer m_tan m_cos m_log x) /\
+  nth_error (history_answers m_tan m_cos m_log (before ++ x :: after)) (List.length before) =
+  nth_error (history_answers m_tan m_cos m_log (before' ++ x :: after')) (List.length before').
+Proof.
+  assert (H : forall b a, nth_error (history_answers m_tan m_cos m_log (b ++ x :: a)) (List.length b) =
+                          Some (step_answer m_tan m_cos m_log x)).
+  { intros b a. unfold history_answers. rewrite map_app. rewrite nth_error_app2; rewrite map_length; [|apply Nat.le_refl].
+    rewrite Nat.sub_diag. reflexivity. }
+  split; [apply H|]. now rewrite !H.
+Qed.
+
 (* the API result is the abstract model's result, printed *)
 Lemma line_api_model m_tan m_cos m_log s e h v : check_zoom h = true -> check_zoom v = true ->
   line_api m_tan m_cos m_log false s e h v =
@@ -744,6 +765,13 @@ Lemma eq_run2 : exists l d, line_run eq_tan eq_cos eq_log 14 3 eq_s2 eq_e2 = Som
   In (mk 14 0 8192 3 0) l /\ In (mk 14 16383 8192 3 0) l /\
   unstable_endpoint eq_tan eq_cos eq_log 14 3 eq_s2 = false /\ unstable_endpoint eq_tan eq_cos eq_log 14 3 eq_e2 = false.
 Proof. eexists. eexists. split; [vm_compute; reflexivity|]. split; [cbn; tauto|]. split; [cbn; tauto|]. split; vm_compute; reflexivity. Qed.
+
+(* a valid call, an invalid one (zoom 36) and the same valid call again: the first and the third answer are the same list *)
+Definition eq_step1 : lstep := {| st_sid := false; st_nil := false; st_s := eq_s1; st_e := eq_e1; st_h := 12; st_v := 22 |}.
+Definition eq_step_bad : lstep := {| st_sid := false; st_nil := false; st_s := eq_s1; st_e := eq_e1; st_h := 12; st_v := 36 |}.
+Lemma eq_history : exists l, (10 < List.length l)%nat /\
+  history_answers eq_tan eq_cos eq_log [eq_step1; eq_step_bad; eq_step1] = [Ok l; Err; Ok l].
+Proof. eexists. split; [|vm_compute; reflexivity]. vm_compute. lia. Qed.
 
 (* ---- D14, float level: SetLat is not idempotent on a stored value (no oracle involved) ---- *)
 Definition d14_lat : float := -0x1.430013c06793dp+6.          (* NewPoint(45.72633137829496, -80.75007534638786, 639.72).Lat() *)
